@@ -105,7 +105,8 @@ META["C02"] = dict(
          "pinned by the repo's own snapshot). Ext.WgpuBinding is a transcription of wgpu-core 24.0.5; the check ALSO hands every generated layout to the REAL "
          "wgpu_core::validation::Interface::check_stage (Provided and Derived mode, no GPU) and treats its rejections as property failures. Visibility is C03. "
          "'Taken in pipeline-layout order' is the kernel-checked C02_pipeline (the pipeline layout holds, at index g, the layout of group g for every resource variable's @group); the "
-         "oracle presents each generated layout at the position the real create_pipeline_layout lists it.",
+         "oracle presents each generated layout at the position the real create_pipeline_layout lists it. 'Is visible to that stage' is the kernel-checked C02_visible (the entry at a variable's @group/@binding is "
+         "visible to every stage with an entry point statically using the variable; from C03_visibility), evaluated on the real entries by the driver.",
     design_ref="DESIGN.md section 5 (C02), 13.15",
     note="Trusts: the transcription (validated per case against the real check_stage), resourceShapes (checked per validated module), the name identity naga StorageFormat = wgpu TextureFormat "
          "(checked by the oracle on every format). Open known findings: multisampled float textures, integer textures gathered through a filtering sampler.",
